@@ -277,4 +277,9 @@ def r3c(a, tier):
     return rule_all_small_graphs(a, 'C03.R3c', tier)
 
 
-RULES = [r_chain, r1_seed_loop, r2_flag_transfer, r3a, r3b, r3c]
+def r_replay(a, tier):
+    from .c01_contracts import replay_contracts
+    return replay_contracts(a, 'C03.R4')
+
+
+RULES = [r_chain, r1_seed_loop, r2_flag_transfer, r3a, r3b, r3c, r_replay]
